@@ -132,7 +132,12 @@ fn impl_remove_n<const N: usize>(m: &MMappings, ns: &S) -> Result<Option<MMappin
 	let q = AssertUnwindSafe(q);
 	guarded(move || {
 		let q = q;
-		q.0.remove_dummy(&name).ok().map(|o| { let mut d = vec![]; from_quill(&o, &mut d) })
+		q.0.remove_dummy(&name).ok().map(|o| { let mut d = vec![]; let m = from_quill(&o, &mut d); (m, d) })
+	}).and_then(|o| match o {
+		// an IndexMap key that no longer matches the key derived from the node would be a corrupted result
+		Some((_, d)) if !d.is_empty() => Err(format!("result has entries whose map key differs from their info: {}", d.join("; "))),
+		Some((m, _)) => Ok(Some(m)),
+		None => Ok(None),
 	})
 }
 fn impl_remove(m: &MMappings, ns: &S) -> Result<Option<MMappings>, String> {
@@ -401,24 +406,24 @@ fn through_insert(r: &mut Report, d: &DDiff, stream: &str) {
 // generators
 // =====================================================================================
 // name kinds of the truth table; None = absent in the chosen namespace
-const CLASS_KINDS: [(&str, Option<&str>); 12] = [
+const CLASS_KINDS: [(&str, Option<&str>); 13] = [
 	("placeholder", Some("C_1")), ("unmapped-placeholder", Some("net/minecraft/unmapped/C_77")), ("pkg/C_", Some("pkg/C_1")),
 	("nested Outer$C_", Some("Outer$C_1")), ("prefix-in-the-middle", Some("xC_1")), ("ends-with-prefix", Some("AC_")),
 	("real", Some("Real")), ("absent", None), ("bare-prefix", Some("C_")), ("unmapped-real", Some("net/minecraft/unmapped/Real")),
-	("bare-unmapped-prefix", Some("net/minecraft/unmapped/C_")), ("lower-case", Some("c_1")),
+	("bare-unmapped-prefix", Some("net/minecraft/unmapped/C_")), ("lower-case", Some("c_1")), ("prefix-without-underscore", Some("C1")),
 ];
-const FIELD_KINDS: [(&str, Option<&str>); 8] = [
+const FIELD_KINDS: [(&str, Option<&str>); 9] = [
 	("placeholder", Some("f_1")), ("prefix-in-the-middle", Some("xf_1")), ("ends-with-prefix", Some("af_")), ("real", Some("real")),
-	("absent", None), ("bare-prefix", Some("f_")), ("upper-case", Some("F_1")), ("other-level-prefix", Some("m_1")),
+	("absent", None), ("bare-prefix", Some("f_")), ("upper-case", Some("F_1")), ("other-level-prefix", Some("m_1")), ("prefix-without-underscore", Some("f1")),
 ];
-const METHOD_KINDS: [(&str, Option<&str>); 12] = [
+const METHOD_KINDS: [(&str, Option<&str>); 13] = [
 	("placeholder", Some("m_1")), ("prefix-in-the-middle", Some("xm_1")), ("ends-with-prefix", Some("am_")), ("real", Some("real")),
 	("absent", None), ("<init>", Some("<init>")), ("<clinit>", Some("<clinit>")), ("<init>-then-more", Some("<init>x")),
-	("ends-with-<init>", Some("x<init>")), ("bare-prefix", Some("m_")), ("other-level-prefix", Some("f_1")), ("<Init>", Some("<Init>")),
+	("ends-with-<init>", Some("x<init>")), ("bare-prefix", Some("m_")), ("other-level-prefix", Some("f_1")), ("<Init>", Some("<Init>")), ("prefix-without-underscore", Some("m1")),
 ];
-const PARAM_KINDS: [(&str, Option<&str>); 7] = [
+const PARAM_KINDS: [(&str, Option<&str>); 8] = [
 	("placeholder", Some("p_1")), ("prefix-in-the-middle", Some("xp_1")), ("ends-with-prefix", Some("ap_")), ("real", Some("real")),
-	("absent", None), ("bare-prefix", Some("p_")), ("upper-case", Some("P_1")),
+	("absent", None), ("bare-prefix", Some("p_")), ("upper-case", Some("P_1")), ("prefix-without-underscore", Some("p1")),
 ];
 
 #[derive(Clone, Copy)]
@@ -465,7 +470,6 @@ fn run_path(r: &mut Report, p: &Path, stream: &str) {
 }
 
 fn all_nodes(kinds: usize) -> Vec<Node> { (0..kinds).flat_map(|k| [false, true].into_iter().map(move |doc| Node { kind: k, doc })).collect() }
-fn opt_nodes(kinds: usize) -> Vec<Option<Node>> { std::iter::once(None).chain(all_nodes(kinds).into_iter().map(Some)).collect() }
 
 /// the level tables: every (name kind x comment) of one level against representative parents and children
 fn remove_tables(r: &mut Report) {
@@ -479,39 +483,49 @@ fn remove_tables(r: &mut Report) {
 	for ns in [1usize, 0] {
 		for src_placeholder in [false, true] {
 			if ns == 0 && src_placeholder { continue; }
+			// the first variant gets every representative parent / child, the two others a reduced set
+			let full = ns == 1 && !src_placeholder;
+			let parents: &[Node] = if full { &rep_class[..] } else { &rep_class[..1] };
 			// parameter level
 			for pa in all_nodes(PARAM_KINDS.len()) {
-				for me in [n(0, false), n(5, false), n(3, false), n(0, true)] {
-					for cl in rep_class { run_path(r, &Path { class: cl, field: None, meth: Some((me, Some(pa))), ns, src_placeholder }, "table-parameter"); }
+				for me in if full { vec![n(0, false), n(5, false), n(3, false), n(0, true)] } else { vec![n(0, false)] } {
+					for cl in parents { run_path(r, &Path { class: *cl, field: None, meth: Some((me, Some(pa))), ns, src_placeholder }, "table-parameter"); }
 				}
 			}
 			// field level
 			for f in all_nodes(FIELD_KINDS.len()) {
-				for cl in rep_class { for me in [None, Some((n(0, false), None))] { run_path(r, &Path { class: cl, field: Some(f), meth: me, ns, src_placeholder }, "table-field"); } }
+				for cl in parents { for me in [None, Some((n(0, false), None))] { run_path(r, &Path { class: *cl, field: Some(f), meth: me, ns, src_placeholder }, "table-field"); } }
 			}
 			// method level
 			for me in all_nodes(METHOD_KINDS.len()) {
-				for pa in rep_param { for cl in rep_class { for f in [None, Some(n(0, false))] {
-					run_path(r, &Path { class: cl, field: f, meth: Some((me, pa)), ns, src_placeholder }, "table-method");
+				for pa in if full { &rep_param[..] } else { &rep_param[..3] } { for cl in parents { for f in [None, Some(n(0, false))] {
+					run_path(r, &Path { class: *cl, field: f, meth: Some((me, *pa)), ns, src_placeholder }, "table-method");
 				} } }
 			}
 			// class level
 			for cl in all_nodes(CLASS_KINDS.len()) {
-				for f in rep_field { for me in &rep_meth {
-					run_path(r, &Path { class: cl, field: f, meth: *me, ns, src_placeholder }, "table-class");
+				for f in if full { &rep_field[..] } else { &rep_field[..3] } { for me in if full { &rep_meth[..] } else { &rep_meth[..4] } {
+					run_path(r, &Path { class: cl, field: *f, meth: *me, ns, src_placeholder }, "table-class");
 				} }
 			}
 		}
 	}
 }
 
-/// the full product of the four levels (147 288 single-path trees for namespace 1): all of it or a sample
+/// the product of the four levels for single-path trees: a random sample over all kinds
+/// (26 x 19 x 443 = 218 842 trees for the second namespace), or, with `sample = None`, the FULL product
+/// over the reduced kind sets (placeholder, prefix in the middle, real, absent, and
+/// net/minecraft/unmapped/C_… for classes, <init> for methods): 10 x 9 x 91 = 8 190 trees
 fn remove_product(r: &mut Report, rng: &mut Rng, sample: Option<usize>) {
-	let classes = all_nodes(CLASS_KINDS.len());
-	let fields = opt_nodes(FIELD_KINDS.len());
-	let params = opt_nodes(PARAM_KINDS.len());
+	let pick_kinds = |all: usize, reduced: &[usize]| -> Vec<Node> {
+		if sample.is_some() { all_nodes(all) } else { reduced.iter().flat_map(|&k| [false, true].into_iter().map(move |doc| Node { kind: k, doc })).collect() }
+	};
+	let opt = |v: Vec<Node>| -> Vec<Option<Node>> { std::iter::once(None).chain(v.into_iter().map(Some)).collect() };
+	let classes = pick_kinds(CLASS_KINDS.len(), &[0, 1, 4, 6, 7]);
+	let fields = opt(pick_kinds(FIELD_KINDS.len(), &[0, 1, 3, 4]));
+	let params = opt(pick_kinds(PARAM_KINDS.len(), &[0, 1, 3, 4]));
 	let mut meths: Vec<Option<(Node, Option<Node>)>> = vec![None];
-	for me in all_nodes(METHOD_KINDS.len()) { for pa in &params { meths.push(Some((me, *pa))); } }
+	for me in pick_kinds(METHOD_KINDS.len(), &[0, 1, 3, 4, 5]) { for pa in &params { meths.push(Some((me, *pa))); } }
 	match sample {
 		Some(k) => for _ in 0..k {
 			let p = Path { class: *rng.pick(&classes), field: *rng.pick(&fields), meth: *rng.pick(&meths), ns: if rng.chance(1, 6) { 0 } else { 1 }, src_placeholder: rng.chance(1, 4) };
@@ -523,10 +537,10 @@ fn remove_product(r: &mut Report, rng: &mut Rng, sample: Option<usize>) {
 	}
 }
 
-const DUMMY_CLASS: [&str; 6] = ["C_1", "C_204", "net/minecraft/unmapped/C_5", "a/C_1", "Outer$C_2", "C_"];
-const DUMMY_FIELD: [&str; 4] = ["f_1", "f_22", "f_", "af_1"];
-const DUMMY_METH: [&str; 7] = ["m_1", "m_33", "<init>", "<clinit>", "m_", "am_1", "<init>2"];
-const DUMMY_PARAM: [&str; 4] = ["p_1", "p_0", "p_", "ap_1"];
+const DUMMY_CLASS: [&str; 7] = ["C_1", "C_204", "net/minecraft/unmapped/C_5", "a/C_1", "Outer$C_2", "C_", "C9"];
+const DUMMY_FIELD: [&str; 5] = ["f_1", "f_22", "f_", "af_1", "f2"];
+const DUMMY_METH: [&str; 8] = ["m_1", "m_33", "<init>", "<clinit>", "m_", "am_1", "<init>2", "m3"];
+const DUMMY_PARAM: [&str; 5] = ["p_1", "p_0", "p_", "ap_1", "p4"];
 
 /// pushes a random tree towards the interesting region: many placeholder names in the chosen
 /// namespace and few comments, so that removals cascade
@@ -663,10 +677,24 @@ fn shuffled_diff(rng: &mut Rng, d: &DDiff) -> DDiff {
 }
 
 // =====================================================================================
+// insert_dummy reports every ignored addition with eprintln!; silence fd 2 while the cases run
+extern "C" { fn dup(fd: i32) -> i32; fn dup2(from: i32, to: i32) -> i32; fn close(fd: i32) -> i32; }
+struct QuietStderr { saved: i32 }
+impl QuietStderr {
+	fn new() -> QuietStderr {
+		use std::os::unix::io::AsRawFd;
+		let saved = unsafe { dup(2) };
+		if let Ok(null) = std::fs::OpenOptions::new().write(true).open("/dev/null") { unsafe { dup2(null.as_raw_fd(), 2); } }
+		QuietStderr { saved }
+	}
+}
+impl Drop for QuietStderr { fn drop(&mut self) { if self.saved >= 0 { unsafe { dup2(self.saved, 2); close(self.saved); } } } }
+
 pub fn run(ctx: &Ctx) -> anyhow::Result<Report> {
+	let _quiet = QuietStderr::new();
 	let mut r = Report::new("C10", "C10.Run");
 	let mut rng = Rng::new(ctx.seed);
-	r.rule = "remove_dummy: (1) level tables, exhaustive: every name kind of a level (placeholder, net/minecraft/unmapped/C_…, pkg/C_…, nested Outer$C_…, prefix in the middle, name ending with the prefix, real, absent, bare prefix, other case, <init>, <clinit>, <init>x, x<init>, other level's prefix) x comment yes/no, against representative parents and children (none / removed / kept by comment / kept by name), for chosen namespace = second (source names real or placeholder-like) and = first; (2) the full product of the four levels for single-path trees of depth 4 (thorough: all 147 288; quick: a random sample); (3) random bushy trees from mapmodel::gen_mappings with 2-4 namespaces pushed towards placeholder names, every namespace chosen in turn, plus an unknown and a duplicated namespace name. insert_dummy: level tables 9 name actions (None, Add, Remove(old), Remove(placeholder), Edit, Edit(same,same), …) x 5 comment actions x representative children and parents, 12 class-key shapes for the simple-inner-name placeholder, parameter indices up to usize::MAX; random bushy diffs and a shuffled copy. Non-trivial: the tree is non-empty and the call returned Ok; distinct by the Gallina text of input + namespace.".into();
+	r.rule = "remove_dummy: (1) level tables, exhaustive: every name kind of a level (placeholder, net/minecraft/unmapped/C_…, pkg/C_…, nested Outer$C_…, prefix in the middle, name ending with the prefix, prefix without the underscore, real, absent, bare prefix, other case, <init>, <clinit>, <init>x, x<init>, other level's prefix) x comment yes/no, against representative parents and children (none / removed / kept by comment / kept by name), for chosen namespace = second (source names real or placeholder-like) and = first; (2) the product of the four levels for single-path trees of depth 4: a random sample over all kinds (quick 1000, thorough 30000 of 218 842) and, thorough only, the full product over the reduced kind sets (8 190); (3) random bushy trees from mapmodel::gen_mappings with 2-4 namespaces pushed towards placeholder names, every namespace chosen in turn, plus an unknown and a duplicated namespace name. insert_dummy: level tables 9 name actions (None, Add, Remove(old), Remove(placeholder), Edit, Edit(same,same), …) x 5 comment actions x representative children and parents, 12 class-key shapes for the simple-inner-name placeholder, parameter indices up to usize::MAX; random bushy diffs and a shuffled copy. Non-trivial: the tree is non-empty and the call returned Ok; distinct by the Gallina text of input + namespace.".into();
 
 	// decimal printing and inner-class names, on their own
 	for n in [0u64, 1, 9, 10, 11, 99, 100, 101, 255, 256, 999, 1000, 65535, 65536, 4294967295, 4294967296, 9999999999, 10000000000, u64::MAX - 1, u64::MAX] {
@@ -691,11 +719,11 @@ pub fn run(ctx: &Ctx) -> anyhow::Result<Report> {
 
 	// ---- remove_dummy ----
 	remove_tables(&mut r);
-	if ctx.thorough { remove_product(&mut r, &mut rng, None); r.notes.push("full product of the four levels enumerated (namespace = second, real source names)".into()); }
-	remove_product(&mut r, &mut rng, Some(if ctx.thorough { 6000 } else { 2500 }));
+	if ctx.thorough { remove_product(&mut r, &mut rng, None); r.notes.push("full product of the four levels over the reduced kind sets enumerated (8 190 single-path trees; namespace = second, real source names)".into()); }
+	remove_product(&mut r, &mut rng, Some(if ctx.thorough { 30000 } else { 1000 }));
 	r.exhaustive = true;
 
-	let nrand = if ctx.thorough { 4000 } else { 500 };
+	let nrand = if ctx.thorough { 4000 } else { 350 };
 	for k in 0..nrand {
 		let n = 2 + k % 3;
 		let mut cfg = GenCfg::new(n);
@@ -724,6 +752,26 @@ pub fn run(ctx: &Ctx) -> anyhow::Result<Report> {
 			through_remove(&mut r, &m4, &ns1, "duplicate-namespace");
 		}
 	}
+	// malformed / exotic names: unpaired surrogates, supplementary characters, control characters and
+	// garbage descriptors around the prefixes (the name types are built unchecked, as the readers do)
+	{
+		let sur = |pre: &str, cp: u32, post: &str| -> S { let mut v = s(pre); v.push(cp); v.extend(s(post)); v };
+		let exotic: Vec<u32> = vec![0xD800, 0xDFFF, 0x10400, 0, 9, 0x7f, 0xFFFF, '$' as u32, '/' as u32];
+		for &cp in &exotic {
+			for (ci, cn) in [sur("C_", cp, ""), sur("", cp, "C_1"), sur("net/minecraft/unmapped/C_", cp, "x"), sur("net/minecraft/unmapped", cp, "C_1")].into_iter().enumerate() {
+				let m = MMappings { ns: vec![s("official"), s("named")], doc: None, classes: vec![MClass {
+					names: vec![Some(sur("a/", cp, "A")), Some(cn)], doc: None,
+					fields: vec![MField { desc: sur("", cp, "garbage"), names: vec![Some(s("f")), Some(sur("f_", cp, ""))], doc: None },
+						MField { desc: s("I"), names: vec![Some(s("g")), Some(sur("", cp, "f_"))], doc: None }],
+					methods: vec![MMeth { desc: sur("(", cp, ""), names: vec![Some(s("m")), Some(if ci % 2 == 0 { sur("m_", cp, "") } else { sur("<init>", cp, "") })], doc: None,
+						params: vec![MParam { index: 0, names: vec![None, Some(sur("p_", cp, ""))], doc: None }, MParam { index: 1, names: vec![None, Some(sur("", cp, "p_"))], doc: None }] },
+						MMeth { desc: s("()V"), names: vec![Some(s("n")), Some(sur("", cp, "<init>"))], doc: None, params: vec![] }],
+				}] };
+				r.count("exotic:remove");
+				through_remove(&mut r, &m, &s("named"), "exotic-names");
+			}
+		}
+	}
 	// the repository's own fixture
 	{
 		let repo = std::env::var("VERIF_REPO").unwrap_or_else(|_| env!("FBH_REPO").to_string());
@@ -740,7 +788,17 @@ pub fn run(ctx: &Ctx) -> anyhow::Result<Report> {
 
 	// ---- insert_dummy ----
 	insert_tables(&mut r);
-	let nrand = if ctx.thorough { 4000 } else { 500 };
+	for &cp in &[0xD800u32, 0xDFFF, 0x10400, 0, 0x7f, '$' as u32, '/' as u32] {
+		for (pre, post) in [("A$", "B"), ("A", "$B"), ("a/", "$B"), ("A$B", ""), ("", "A$B")] {
+			let mut key = s(pre); key.push(cp); key.extend(s(post));
+			for ik in [2usize, 3, 0] {
+				let c = DClass { name: key.clone(), info: info_kind(ik, &ref_simple_inner(&key)), doc: DAct::None, fields: vec![DField { name: key.clone(), desc: s("I"), info: info_kind(ik, &key), doc: DAct::None }], methods: vec![] };
+				r.count("exotic:insert");
+				through_insert(&mut r, &ddiff(vec![c]), "exotic-diff-keys");
+			}
+		}
+	}
+	let nrand = if ctx.thorough { 4000 } else { 350 };
 	for k in 0..nrand {
 		let d = gen_diff(&mut rng, if k % 7 == 0 { 8 } else { 4 });
 		through_insert(&mut r, &d, "random-diff");
